@@ -29,7 +29,7 @@ def _run(ctx, spec, module, cfg, traces, diag, files, timeout, dfs, workers, ext
 
 def validate(ctx, spec: str, module: str, cfg: str, traces: list, *, files: dict | None = None,
              timeout: float = 900, dfs: bool = False, workers="auto", extra_env: dict | None = None,
-             max_rounds: int = 25, diagnose: bool = True) -> list:
+             max_rounds: int = 25, diagnose: bool = True, max_diagnose: int = 25) -> list:
     n = len(traces)
 
     def events(t):
@@ -71,9 +71,11 @@ def validate(ctx, spec: str, module: str, cfg: str, traces: list, *, files: dict
                 verdicts[gi] = {"ok": True}
         rejected = [gi for k, gi in enumerate(live) if k not in accepted]
         live = []
-        for gi in rejected:
+        for nd, gi in enumerate(rejected):
             v = {"ok": False, "reason": "rejected", "prefix": None, "event": None}
-            if diagnose:
+            # each diagnosis is one TLC run of its own: beyond `max_diagnose` rejected traces the verdict stands without
+            # the longest matched prefix
+            if diagnose and nd < max_diagnose:
                 d = _run(ctx, spec, module, cfg, [traces[gi]], True, files, timeout, dfs, 1, extra_env)
                 mx = 0
                 for s in d.printed():
